@@ -110,7 +110,10 @@ fn run_batch(prog: &Program, kind: &str, seed: u64, iters: usize, shared: &Arc<M
             Err(payload) => {
                 let msg = payload.downcast_ref::<String>().cloned().or_else(|| payload.downcast_ref::<&str>().map(|s| s.to_string())).unwrap_or_default();
                 let ctx = shared.lock().unwrap().cur.clone();
+                // PCT refuses to go on when its first (oldest-task-first) execution never had two runnable tasks
+                if msg.contains("did not exercise any concurrency") { break; }
                 if let Some(ctx) = ctx {
+                    if msg.contains("did not exercise any concurrency") { if std::env::var("HARNESS_PANIC_MSG").is_ok() { eprintln!("NOCONC {}", prog.to_text()); } remaining = 0; continue; }
                     let fail = if msg.contains("deadlock") { classify_deadlock(&ctx) }
                                else if msg.contains("max_steps") { Failure { props: vec!["C03", "C04"], what: format!("livelock: {}", msg) } }
                                else { Failure { props: vec!["C14", "C03"], what: format!("panic in execution: {}", msg.chars().take(300).collect::<String>()) } };
@@ -171,7 +174,11 @@ fn profile(name: &str) -> GenConfig {
 fn main() {
     let args: Vec<String> = std::env::args().collect();
     let cmd = args.get(1).map(|s| s.as_str()).unwrap_or("");
-    std::panic::set_hook(Box::new(|_| {}));
+    if std::env::var("HARNESS_PANIC_MSG").is_ok() {
+        std::panic::set_hook(Box::new(|info| { eprintln!("PANIC: {}", info.to_string().chars().take(400).collect::<String>()); }));
+    } else {
+        std::panic::set_hook(Box::new(|_| {}));
+    }
     let seed: u64 = arg(&args, "--seed").and_then(|s| s.parse().ok()).unwrap_or(1);
     match cmd {
         "gen" => {
